@@ -1,14 +1,16 @@
+\* header cover (quick): nothing held / the honest tree of size 2 held, then every member of the log's header family
+\* (see MCWitness.tla, HdrNext)
 CONSTANTS
   Logs = {"L1", "L2"}
   OtherLogs = {"LX"}
-  MaxSize = 4
+  MaxSize = 3
   ForkAt = 2
-  Proofs = {"correct", "othersizes", "otherfork", "truncated", "padded", "random", "empty"}
+  Proofs = {"correct", "othersizes", "truncated", "empty"}
   Aliases = {"bits", "nl", "nopad", "urlsafe", "space"}
   CoverAliases = {"bits"}
   CoverFaultProofs = {"correct"}
-  DonorIdfs = {"absent", "right", "wrong"}
-  ForgedIdfs = {"absent", "right", "wrong"}
+  DonorIdfs = {"absent"}
+  ForgedIdfs = {"absent"}
   RSALogs = {"L2"}
   HashCodes = {"none", "md5", "sha1", "sha224", "sha256", "sha384", "sha512", "h7", "h8", "hx"}
   SigAlgs = {"anon", "rsa", "dsa", "ecdsa", "s7", "s8", "sx"}
@@ -19,10 +21,12 @@ CONSTANTS
   HdrTofuFull = FALSE
   HistLogs = {"L1"}
   HistProofs = {"correct", "empty"}
-  HistFaults = {"ctx"}
+  HistFaults = {"commit"}
   HistTs = {1}
-  Depth = 12
+  Depth = 2
 INIT Init
-NEXT SimNextF
-INVARIANTS ExportFinished
+NEXT HdrNext
+VIEW HdrView
+INVARIANTS ExportAtDepth OnlySigned ExactHeaderOnly
+PROPERTIES OtherHeaderRefused OtherHeaderLikeBadSig NoHashNoSignature
 CHECK_DEADLOCK FALSE
